@@ -17,7 +17,7 @@ var soupTokens = []string{
 	";; $MODULE m", ";; $MODULE ", ";; $x 1", ";; $x", ";; $", ";;", "; c",
 	"; comment\n", ";; $x 1\n", ";; $MODULE m\n", ";", ";; $a $b\n", ";; $x\n", ";; x 1\n",
 	"\n", "\r\n", "\t", " ", "  ", "\x00", "\xff", "\xc3", "\xef\xbb\xbf", "ʞ", "ʞkw", "é", "世", "λ",
-	"(+ 1 2)", "[1 2]", "{:a 1}", "#{:a}", "(def a 1)", "'x", "^{:m 1} [1]", "@a", "`(~a ~@b)", "«atom 1»", "«»", "«1»", "«foo»", "{:a}", "{1 2}", "#{1}",
+	"(+ 1 2)", "[1 2]", "{:a 1}", "#{:a}", "(def a 1)", "'x", "^{:m 1} [1]", "@a", "`(~a ~@b)", "«atom 1»", "«»", "«1»", "«foo»", "«nil»", "«nil 1 2»", "«$T 1»", "«atom «nil»»", "«\"s\" 1»", "«[a]»", "«:k»", ";; $A «nil»\n", "«atom $x»", "«point $x $x»", "{:a}", "{1 2}", "#{1}",
 }
 
 // Soup draws a byte string made of reader tokens, delimiters, comments, preamble lines,
@@ -33,6 +33,9 @@ func Soup(t *rapid.T, label string) string {
 			sb.WriteString(val_quote(Str(t, label+"qs", Opts{Str: StrHot})))
 		case 2:
 			sb.WriteString(string(rapid.SliceOfN(rapid.Byte(), 0, 4).Draw(t, label+"bytes")))
+		case 3:
+			// a string literal that begins with the keyword marker: reads as a keyword of arbitrary name
+			sb.WriteString(val_quote("\u029e" + Str(t, label+"kwstr", Opts{Str: StrFull, NoNUL: true})))
 		default:
 			sb.WriteString(rapid.SampledFrom(soupTokens).Draw(t, label+"tok"))
 		}
